@@ -55,6 +55,10 @@ class Spec:
         self.notes: list = []
 
 
+def is_auxiliary(obname: str) -> bool:
+    return bool(re.search(r"/loop\d+/(inv-entry|inv-preserved|frame/)", obname)) or "recursion-measure" in obname
+
+
 def path_signature(labels):
     return [re.sub(r"@\d+", "", l) for l in labels]
 
@@ -251,6 +255,7 @@ def run_property(pid: str, tier: str = "quick", seed: int = 0) -> int:
     # replay each violation against the real code
     vio_out = []
     printed = []
+    aux_unconfirmed = []
     # one VIOLATION line per failed obligation name; further failing paths of the same obligation are
     # listed inside the replay file (replay is attempted for up to three of them until one confirms)
     grouped = {}
@@ -268,6 +273,11 @@ def run_property(pid: str, tier: str = "quick", seed: int = 0) -> int:
         rec["replay"] = rp
         rec["other_failing_paths"] = [r["path"] for (_, r) in group if r is not rec][:20]
         rec["failing_paths"] = len(group)
+        if is_auxiliary(oname) and not rp.get("confirmed"):
+            # a loop invariant / frame / measure that is not inductive for this code is a proof artefact:
+            # without a failing input on the real code it means "undecided", not "violated"
+            aux_unconfirmed.append(oname)
+            continue
         safe = re.sub(r"[^A-Za-z0-9_.-]+", "_", rec["obligation"])[-120:]
         rpath = REPLAYS / f"{pid}_{idx}_{safe}.json"
         rpath.write_text(json.dumps(rec, indent=1, default=str))
@@ -306,7 +316,7 @@ def run_property(pid: str, tier: str = "quick", seed: int = 0) -> int:
         "violations": vio_out, "notes": spec.notes,
     })
     ev["assumptions"] = trusted
-    ev["violations"] = len(violations)
+    ev["violations"] = len(vio_out)
 
     if by["error"]:
         return finish(3, f"solver front-end errors on {len(by['error'])} obligation(s): {results[by['error'][0].key]['model'][:300]}")
@@ -334,8 +344,11 @@ def run_property(pid: str, tier: str = "quick", seed: int = 0) -> int:
             if ev["violations"]:
                 return finish(1, "violation found by bounded stand-in")
             return finish(3, f"bounded stand-in failed to run: {[b['name'] for b in bad]}")
-    if violations:
-        return finish(1, f"{len(grouped)} failed obligation(s) on {len(violations)} path(s)")
+    if vio_out:
+        return finish(1, f"{len(vio_out)} failed obligation(s) on {len(violations)} path(s)")
+    if aux_unconfirmed:
+        ev["coverage"]["auxiliary_obligations_not_inductive"] = aux_unconfirmed
+        return undecided(f"{len(aux_unconfirmed)} loop-invariant/frame/measure obligation(s) fail for this code and no failing input was found: {aux_unconfirmed[:3]}")
     if by["unknown"]:
         ev["coverage"]["undecided_names"] = [ob.name for ob in by["unknown"]][:40]
         return undecided(f"{len(by['unknown'])} obligation(s) left open by all back ends")
